@@ -10,7 +10,7 @@
 (* All boundaries except 87 degrees are irrational, so no lattice point    *)
 (* ties with them; |lat| >= 87 is outside the scope of C08.                *)
 (***************************************************************************)
-EXTENDS Bits, CprTab
+EXTENDS Bits, CprTab, Trig
 
 P17 == 131072
 NoPos == <<>>
@@ -85,6 +85,37 @@ ArcMicroDeg(olat, olon, lat, lon) ==
 \* metres = 6371000 * pi/180 * arc;  pi/180 * 6371000 / 10^6 = 0.111194926644... m per micro-degree
 \* = arc * 111194927 / 10^9, computed as MulDiv(arc, 111194927, 1000000000 / 2) / 2 to respect MulDiv's c < 7*10^8
 DistMetres(arc) == MulDiv(arc, 111194927, 500000000) \div 2
+
+
+(***************************************************************************)
+(* Coarse great-circle arc for a general geometry (haversine with the      *)
+(* 1-degree sine table SinD and linear interpolation, scale 5*10^8).       *)
+(* Relative error about 10^-4: good enough to tell a right distance from a *)
+(* wrong formula, not to judge the last hundred metres.                    *)
+(***************************************************************************)
+SC == 500000000
+\* sin of x micro-degrees, 0 <= x <= 90*10^6, scaled by SC
+SinU(x) == LET k == x \div 1000000  r == x % 1000000 IN
+           IF k >= 90 THEN SinD[91] ELSE SinD[k + 1] + MulDiv(SinD[k + 2] - SinD[k + 1], r, 1000000)
+\* sin of 0..180 degrees and cos of -90..90 degrees
+Sin180(x) == IF x <= 90000000 THEN SinU(x) ELSE SinU(180000000 - x)
+Cos90(x) == SinU(90000000 - Abs(x))
+HavScaled(olat, olon, lat, lon) ==
+  LET dphi2 == Abs(olat - lat) \div 2
+      dl0   == Abs(olon - lon)
+      dl    == IF dl0 > 180000000 THEN 360000000 - dl0 ELSE dl0
+      sa    == SinU(dphi2)
+      sb    == Sin180(dl \div 2)
+      A     == MulDiv(sa, sa, SC)
+      B     == MulDiv(sb, sb, SC)
+      cc    == MulDiv(Cos90(olat), Cos90(lat), SC)
+  IN  Min(SC, A + MulDiv(cc, B, SC))
+\* theta in micro-degrees (0..90*10^6) with sin^2(theta) = h/SC: bisection, sin is monotone there
+RECURSIVE AsinSqR(_, _, _, _)
+AsinSqR(h, lo, hi, n) == IF n = 0 \/ hi - lo <= 1 THEN lo
+                         ELSE LET mid == (lo + hi) \div 2  s == SinU(mid) IN
+                              IF MulDiv(s, s, SC) <= h THEN AsinSqR(h, mid, hi, n - 1) ELSE AsinSqR(h, lo, mid, n - 1)
+ArcGeneral(olat, olon, lat, lon) == 2 * AsinSqR(HavScaled(olat, olon, lat, lon), 0, 90000000, 28)
 
 ASSUME NLof(0, TE) = 59 /\ NLof(TE[1], TE) = 1 /\ NLof(TE[1] - 1, TE) = 2
 ASSUME NLof(TE[58] - 1, TE) = 59 /\ NLof(TE[58], TE) = 58
